@@ -582,8 +582,45 @@ class IntEnc:
                 mx = max(mx, idx[a] + 1)
         return mx
 
+    def hop_slice(self, texts, extra, hops):
+        """indices of constraints (and of `extra` items) within `hops` steps of
+        the atoms mentioned in texts, walking the atom/constraint incidence
+        graph.  Dropping the rest is a sound weakening of the assumptions."""
+        if not hasattr(self, "_cons_atoms") or len(self._cons_atoms) != len(self.cons):
+            self._cons_atoms = [set(self.atoms_in(c)) for c in self.cons]
+            self._by_atom = {}
+            for i, sa in enumerate(self._cons_atoms):
+                for a in sa:
+                    self._by_atom.setdefault(a, []).append(i)
+        ex_atoms = [set(self.atoms_in(c)) for c in extra]
+        ex_by_atom = {}
+        for i, sa in enumerate(ex_atoms):
+            for a in sa:
+                ex_by_atom.setdefault(a, []).append(i)
+        frontier = set()
+        for t in texts:
+            frontier.update(self.atoms_in(t))
+        seen_atoms = set(frontier)
+        keep, keepx = set(), set()
+        for _ in range(hops):
+            nxt = set()
+            for a in frontier:
+                for i in self._by_atom.get(a, ()):
+                    if i not in keep:
+                        keep.add(i)
+                        nxt.update(self._cons_atoms[i] - seen_atoms)
+                for i in ex_by_atom.get(a, ()):
+                    if i not in keepx:
+                        keepx.add(i)
+                        nxt.update(ex_atoms[i] - seen_atoms)
+            seen_atoms.update(nxt)
+            frontier = nxt
+            if not frontier:
+                break
+        return keep, keepx
+
     def script(self, goal_negated, extra=(), logic="QF_LIA", models=True, exact_products=False,
-               prefix=None):
+               prefix=None, hops=None):
         """prefix=N keeps only the first N atoms (program order) and the
         constraints that mention no later atom: a weaker (still sound)
         assumption set, used to prove local lemmas cheaply."""
@@ -602,10 +639,15 @@ class IntEnc:
             for p, (x, y) in self.prod_ops.items():
                 if p in keep:
                     s.append("(assert (= %s (* %s %s)))" % (p, x, y))
-        for c, st in zip(self.cons, self.cons.stamp):
-            if prefix is None or st <= prefix:
+        kc = kx = None
+        if hops is not None:
+            kc, kx = self.hop_slice([goal_negated], list(extra), hops)
+        for i, (c, st) in enumerate(zip(self.cons, self.cons.stamp)):
+            if (prefix is None or st <= prefix) and (kc is None or i in kc):
                 s.append("(assert %s)" % c)
-        for c in extra:
+        for i, c in enumerate(extra):
+            if kx is not None and i not in kx:
+                continue
             if prefix is None or all(a in keep for a in self.atoms_in(c)):
                 s.append("(assert %s)" % c)
         s.append("(assert %s)" % goal_negated)
